@@ -93,13 +93,57 @@ func TestBoundedC15(t *testing.T) {
 	r.emit()
 }
 
+// decodeTagName is the specification of tagName, written as its inverse: "@_" is "/", a leading '@' is the leading '/',
+// "__" is a literal '_', "_XY" (two upper-case hex digits) is the byte XY, every other byte stands for itself.
+func decodeTagName(tn string) (string, bool) {
+	if tn == "@_" {
+		return "/", true
+	}
+	if len(tn) == 0 || tn[0] != '@' {
+		return "", false
+	}
+	hex := func(c byte) (byte, bool) {
+		switch {
+		case '0' <= c && c <= '9':
+			return c - '0', true
+		case 'A' <= c && c <= 'F':
+			return c - 'A' + 10, true
+		}
+		return 0, false
+	}
+	out := []byte{'/'}
+	for i := 1; i < len(tn); {
+		if tn[i] != '_' {
+			out = append(out, tn[i])
+			i++
+			continue
+		}
+		if i+1 < len(tn) && tn[i+1] == '_' {
+			out = append(out, '_')
+			i += 2
+			continue
+		}
+		if i+2 >= len(tn) {
+			return string(out), false
+		}
+		h, ok1 := hex(tn[i+1])
+		l, ok2 := hex(tn[i+2])
+		if !ok1 || !ok2 {
+			return string(out), false
+		}
+		out = append(out, h<<4|l)
+		i += 3
+	}
+	return string(out), true
+}
+
 func TestBoundedC19(t *testing.T) {
 	n := 4
 	if os.Getenv("GOVC_BOUND_TIER") == "thorough" {
 		n = 5
 	}
 	r := &boundedReport{ID: "C19.tagname-injective", Prop: "C19", Exhaustive: true,
-		Rule: fmt.Sprintf("every first path segment over {_, %%, ., a, F, 2, \u00e9, space, 5, E} (so that %%25 and %%2E are valid escapes of members of the alphabet) up to length %d (paths \"/\"+seg): different automatic tag titles get different tag names (collisions found with a hash map); pathTagTitle(\"/\"+seg+\"/x\") == pathTagTitle(\"/\"+seg); non-trivial = segment containing _, %%, a non-ASCII letter or a space", n)}
+		Rule: fmt.Sprintf("every first path segment over {_, %%, ., a, F, 2, \u00e9, space, 5, E} (so that %%25 and %%2E are valid escapes of members of the alphabet) up to length %d (paths \"/\"+seg): the tag name decodes back to the title (left inverse written in the test = the specification of tagName, hence injectivity) and different automatic tag titles get different tag names (collisions found with a hash map); pathTagTitle(\"/\"+seg+\"/x\") == pathTagTitle(\"/\"+seg); non-trivial = segment containing _, %%, a non-ASCII letter or a space", n)}
 	names := map[TagName]string{}
 	enumStrings([]string{"_", "%", ".", "a", "F", "2", "\u00e9", " ", "5", "E"}, n, func(seg string) {
 		r.Evals++
@@ -116,6 +160,12 @@ func TestBoundedC19(t *testing.T) {
 			return
 		}
 		tn := tagName(title)
+		// left inverse: a title can be read back from its tag name, so tagName is injective on every title for which this
+		// holds - a much stronger statement than "no two titles of this enumeration collide"
+		if back, ok := decodeTagName(string(tn)); !ok || back != title {
+			r.bad(fmt.Sprintf("tagName(%q) = %q does not decode back to the title (got %q)", title, tn, back))
+			return
+		}
 		if prev, ok := names[tn]; ok && prev != title {
 			r.bad(fmt.Sprintf("titles %q and %q share the tag name %q", prev, title, tn))
 			return
